@@ -135,7 +135,7 @@ func (vm *VM) installStdHelpers() {
 		idx := uint32(a[2])
 		tc := TailCall{Map: m.Name(), Index: idx}
 		prog := pa.Progs[idx]
-		if idx >= pa.Max || prog == nil || vm.tailCalls >= MaxTailCalls {
+		if idx >= pa.Max || prog == nil || vm.tailCalls >= vm.MaxTailCalls {
 			vm.TailCallTrace = append(vm.TailCallTrace, tc)
 			return 0xbad7a11ca11, nil // falls through; r0 is not meaningful
 		}
@@ -210,15 +210,22 @@ func (vm *VM) installStdHelpers() {
 			return 0, fmt.Errorf("for_each_map_elem callback: %v", err)
 		}
 		keys := m.Keys()
-		if vm.ForEachOrder != nil {
-			keys = vm.ForEachOrder(m, keys)
-		}
 		prog := vm.cur
 		n := uint64(0)
-		for _, k := range keys {
+		for len(keys) > 0 {
+			idx := 0
+			if vm.ForEachPick != nil {
+				// scheduling point + choice of the element visited next (hash order is arbitrary)
+				idx = vm.ForEachPick(m, keys)
+				if idx < 0 || idx >= len(keys) {
+					break
+				}
+			}
+			k := keys[idx]
+			keys = append(append([][]byte(nil), keys[:idx]...), keys[idx+1:]...)
 			v, ok := m.Lookup(k)
 			if !ok {
-				continue // deleted by an earlier callback
+				continue // deleted meanwhile
 			}
 			n++
 			kp := vm.NewScratch("foreach-key", append([]byte(nil), k...))
